@@ -24,6 +24,10 @@ def render(toks, mode, rnd=None, marker_gaps=None):
         nxt = toks[i + 1]
         if t.endswith("\n") or nxt.startswith("\n"):
             gap = ""
+            # a line directive may stand on the line directly after a #pragma line (no blank line between)
+            if mode == "markers" and t.endswith("\n") and not nxt.startswith("\n") and rnd.random() < 0.5:
+                m = rnd.choice(MARKERS)
+                gap = (m % ((rnd.randint(1, 900), rnd.randint(1, 4)) if m.count("%d") == 2 else (rnd.randint(1, 900),)))[1:]
         elif mode == "space":
             gap = " "
         elif mode == "lines":
